@@ -221,6 +221,10 @@ def _align_once(trace, ctx, shared, second=False):
         ali = Alignment(start, end)
     if "restr" not in shared:
         shared["restr"] = [tuple(r) if trace["as_tuples"] else list(r) for r in trace["restraints"]]
+        if trace["restraints"] and len(trace["restraints"]) % 3 == 2:
+            # indices taken from arrays (np.argwhere, np.argmin): numpy integers
+            shared["restr"] = [(np.int64(r[0]), np.int64(r[1])) for r in trace["restraints"]]
+            ctx.probe("restraint_indices_as_numpy_integers")
     restr = shared["restr"]
     given = [tuple(r) for r in trace["restraints"]]
     g = trace.get("guess")
